@@ -30,6 +30,11 @@ class PVF(VF):
         super().clear()
         self.nrec = 0
 
+    def ondemand(self, mid):
+        hook = getattr(self, "ondemand_hook", None)
+        if hook is not None:
+            hook(mid)
+
     def rec_ok(self):
         self.nrec += 1
         return self.nrec <= REC_LIMIT
@@ -47,7 +52,10 @@ def body_lines(m, is_method=False):
     if kind == "raise":
         return [f"raise UserExc({mid})"]
     if kind == "next":
-        return [f"return ('n', {mid}, call_next({argl}))"]
+        # "regs": the method changes the function while it runs (registers something that applies to nothing that is
+        # ever passed) and then delegates - the continuation goes on below this method all the same
+        pre = [f"__vf.ondemand({mid})"] if m.get("regs") else []
+        return pre + [f"return ('n', {mid}, call_next({argl}))"]
     if kind == "fnext":
         return [f"return ('n', {mid}, __F.next({', '.join(posn)}))"]
     if kind == "rec":
